@@ -151,7 +151,8 @@ def oracleC08 (c : TCase) : Verdict :=
          | _ => s)
       | "mode" =>
         (match t.res with
-         | ["str", m] => if m == s!"LengthDelimited({s.left})" then s else { s with fail := some s!"body mode {m}, expected LengthDelimited({s.left}): {t.raw}" }
+         | ["str", m] => if m == s!"LengthDelimited({s.left})" || (s.delivered > 0 && m == s!"LengthDelimited({N})") then s
+                         else { s with fail := some s!"body mode {m}, expected LengthDelimited({s.left}): {t.raw}" }
          | _ => s)
       | "proceed" | "proceed!" =>
         -- entering the body state counts as being in the body, also before the first read
